@@ -3,7 +3,7 @@
    at every position of a chain of any length, including to results of other clauses and operators. *)
 From Coq Require Import ZArith QArith String List Bool Permutation.
 Import ListNotations.
-From VTL Require Import Base.Val Model.Table Model.Scalar Model.Expr Proofs.TableP Proofs.MonadP Proofs.ExprP.
+From VTL Require Import Base.Val Model.Table Model.Scalar Model.Expr Proofs.TableP Proofs.MonadP Proofs.ExprP Proofs.ClauseLawsP.
 
 (* filter keeps exactly the datapoints whose condition is TRUE; structure unchanged *)
 Theorem C02_filter_exact : forall d c d',
@@ -90,6 +90,17 @@ Example C02_example :
   d_rows (d_sub D [("Id_2"%string, VStr "A")]) = [([VInt 1], [VInt 6; VNull]); ([VInt 3], [VInt 1; VInt 2])].
 Proof. vm_compute. repeat split. Qed.
 
+(* laws (Proofs/ClauseLawsP.v): keep l and drop l split the non-identifier components between them (each component is in exactly one
+   of the two results), neither touches identifiers or the keys of the datapoints; an empty rename is the identity *)
+Theorem C02_keep_drop_complementary : forall d l,
+  Permutation (d_ms d) (d_ms (d_keep d l) ++ d_ms (d_drop d l)) /\
+  d_ids (d_keep d l) = d_ids d /\ d_ids (d_drop d l) = d_ids d /\
+  map fst (d_rows (d_keep d l)) = map fst (d_rows d) /\ map fst (d_rows (d_drop d l)) = map fst (d_rows d).
+Proof. intros d l. split; [apply keep_drop_partition | apply keep_drop_ids_rows]. Qed.
+
+Theorem C02_rename_nothing_is_identity : forall d, d_rename d [] = d.
+Proof. exact rename_nil. Qed.
+
 Print Assumptions C02_filter_exact.
 Print Assumptions C02_filter_false_null_dropped.
 Print Assumptions C02_filter_error_iff.
@@ -100,3 +111,5 @@ Print Assumptions C02_rename_frame.
 Print Assumptions C02_sub_spec.
 Print Assumptions C02_chain_sees_intermediate_result.
 Print Assumptions C02_chain_is_flat_script.
+Print Assumptions C02_keep_drop_complementary.
+Print Assumptions C02_rename_nothing_is_identity.
